@@ -8,7 +8,8 @@ import (
 
 // C01 — parallel iterator stages deliver every item exactly once.
 
-var c01Kinds = []int{pkSplit, pkProcessParallel, pkParallelForEach, pkWorkerPool, pkMap, pkParallelBuffer, pkMerge, pkGenerateParallel, pkSharedChannel, pkBuffer}
+var c01Kinds = []int{pkSplit, pkProcessParallel, pkParallelForEach, pkWorkerPool, pkMap, pkParallelBuffer, pkMerge, pkGenerateParallel, pkSharedChannel, pkBuffer,
+	pkHFWorkerPool, pkHFOperationPool, pkSplitMerge, pkMapParallelBuffer}
 
 func c01Run(w *W) {
 	kind := c01Kinds[simrt.Choose(len(c01Kinds))]
